@@ -308,6 +308,26 @@ func (x *Exec) Verify() {
 	x.enterBlock(p, fn.Blocks[0], nil, k)
 }
 
+// holdsMutexByValue: the struct has a sync.Mutex / RWMutex field by value (directly or in a nested struct).
+func holdsMutexByValue(st *types.Struct, depth int) bool {
+	if depth > 3 {
+		return false
+	}
+	for i := 0; i < st.NumFields(); i++ {
+		ft := st.Field(i).Type()
+		if _, isPtr := types.Unalias(ft).(*types.Pointer); isPtr {
+			continue
+		}
+		if isMutexType(ft) {
+			return true
+		}
+		if s2, ok := ft.Underlying().(*types.Struct); ok && holdsMutexByValue(s2, depth+1) {
+			return true
+		}
+	}
+	return false
+}
+
 // ---- private objects: allocated by this activation and not yet reachable by any other code ----------------------------
 
 // escapeOnStore: a private object whose address is stored anywhere but into a field of another private object (or a
@@ -1820,6 +1840,11 @@ func (x *Exec) step(p *Path, in ssa.Instruction) {
 			if st := structOf(in.X.Type()); st != nil && xv.K == KScalar && !isTimeType(in.Type()) {
 				x.checkNonNil(p, xv.S, in.X.Name())
 				tkey := typeKey(in.X.Type())
+				if holdsMutexByValue(st, 0) && !x.isFreshObj(p, xv.S) {
+					// copying a struct copies its mutex: the copy's lock excludes nobody (a value receiver, *p assigned
+					// to a variable, ...)
+					x.oblige(p, "lock", "mutex_copied", "false", []string{"C09"}, "a "+shortTypeKey(tkey)+" is copied by value together with the mutex it holds: locking the copy excludes no other goroutine")
+				}
 				sv := Val{K: KStruct, T: in.Type()}
 				for i := 0; i < st.NumFields(); i++ {
 					f := st.Field(i)
